@@ -49,11 +49,27 @@ fn contexts() -> Vec<&'static str> {
         "IF {e} THEN PRINT 1 ELSE IF 1 THEN PRINT 2 ELSE PRINT 3",
         "IF {e} THEN GOSUB 100 ELSE GOSUB 100",
         "IF {e} THEN FOR I = 1 TO 2 ELSE PRINT 2: NEXT I",
+        // a second store to the same name on one line (the first store creates the slot)
+        "Y = 1: Y = {e}",
+        "Y$ = \"A\": Y$ = {e}",
+        "Y = 1: LET Y = {e}",
+        "B(1) = 1: B(1) = {e}",
+        // function bodies: calls are typed by the function's name, whatever the body yields
+        "DEF FNT(X$) = {e}\n11 X = FNT(\"s\")",
+        "DEF FNT(X$) = {e}\n11 PRINT FNT(\"s\")",
+        "DEF FNU$(X) = {e}\n11 X$ = FNU$(1)",
+        "DEF FNU$(X) = {e}\n11 PRINT FNU$(1) + \"q\"",
+        "DEF FNV(X) = {e}\n11 X = FNV(1) + 1",
+        "DEF FNV(X) = {e}\n11 IF FNV(1) THEN PRINT 1",
+        // code that is only reached through a jump, placed after an END
+        "GOSUB 50\n20 END\n50 X = {e}\n60 RETURN",
+        "GOTO 50\n20 END\n50 PRINT {e}",
+        "IF X THEN END\n11 X$ = {e}",
     ]
 }
 
 fn fixed_lines() -> Vec<&'static str> {
-    vec!["GOTO 100", "GOSUB 100", "GOTO 777", "GOSUB 777", "FOR I$ = 1 TO 2", "NEXT I$", "NEXT I", "READ X", "READ X$, X", "RETURN", "DIM C", "PRINT FNQ(1)", "X = FNA(1, 2)", "X = FNA()", "PRINT NOT NOT X", "PRINT - -3", "X = -+1", "PRINT NOT -1", "X = 2 * -+3", "PRINT X$ = X$ = \"A\"", "X = \"A\" = \"A\" = 1", "X = A(- -1)", "GOTO 100.5", "GOSUB 100.25", "IF 1 THEN 100.5", "IF 0 THEN 777 ELSE 100.75", "GOTO 100.0", "GOTO 99.9"]
+    vec!["GOTO 100", "GOSUB 100", "GOTO 777", "GOSUB 777", "FOR I$ = 1 TO 2", "NEXT I$", "NEXT I", "READ X", "READ X$, X", "RETURN", "DIM C", "PRINT FNQ(1)", "X = FNA(1, 2)", "X = FNA()", "PRINT NOT NOT X", "PRINT - -3", "X = -+1", "PRINT NOT -1", "X = 2 * -+3", "PRINT X$ = X$ = \"A\"", "X = \"A\" = \"A\" = 1", "X = A(- -1)", "GOTO 100.5", "GOSUB 100.25", "IF 1 THEN 100.5", "IF 0 THEN 777 ELSE 100.75", "GOTO 100.0", "GOTO 99.9", "I$ = \"S\": FOR I$ = 1 TO 3", "Y = 1: READ Y$", "Y$ = \"\": READ Y"]
 }
 
 fn leaves() -> Vec<Expr> {
@@ -105,6 +121,11 @@ fn exprs(max_ops: usize, with_unary: bool) -> Vec<Expr> {
 const PRESETS: [(&str, &str); 4] = [("0", "\"\""), ("1", "\"\""), ("0", "\"A\""), ("1", "\"A\"")];
 
 fn program(ctx_line: &str, preset: usize, data: &str) -> Vec<String> {
+    let v = program_raw(ctx_line, preset, data);
+    v.iter().flat_map(|l| l.split('\n').map(|x| x.to_string()).collect::<Vec<_>>()).collect()
+}
+
+fn program_raw(ctx_line: &str, preset: usize, data: &str) -> Vec<String> {
     vec![
         format!("1 X = {}: X$ = {}", PRESETS[preset].0, PRESETS[preset].1),
         "5 DEF FNA(X) = X * 2".to_string(),
@@ -315,7 +336,7 @@ pub fn run(thorough: bool) -> Report {
     // Lines without jumps / functions are analysed alone and inside 150-line files.
     let indep: Vec<&String> = jobs.iter().filter(|l| {
         let u = l.to_uppercase();
-        !["GOTO", "GOSUB", "FN", "THEN 1", "THEN 7", "ELSE 7", "READ", "NEXT", "RETURN"].iter().any(|k| u.contains(k))
+        !["GOTO", "GOSUB", "FN", "THEN 1", "THEN 7", "ELSE 7", "READ", "NEXT", "RETURN", "\n"].iter().any(|k| u.contains(k))
     }).collect();
     let long_files = std::sync::atomic::AtomicU64::new(0);
     indep.par_chunks(150).for_each(|chunk| {
